@@ -302,7 +302,7 @@ Lemma gov_set_inv : forall s l rws s', gov_set s l rws = Ok s' ->
                   (recs s) (by_bridger s) (by_ext s) (total_power s) (deleg s) (ubds s) (reds s)
                   (bal_o s) (bal_d s) (sets s) (latest_set s) (slashed_set s) (last_slash_height s)
                   (batches s) (slashed_batch_block s) (calls s) (slashed_call s) (next_call s)
-                  (burned s) (gov_und s))) = Some s'.
+                  (burned s) (gov_und s) (set_mem s) (last_obs s))) = Some s'.
 Proof.
   intros s l rws s' H. unfold gov_set in H.
   destruct l as [|l0 lt] eqn:EL; [discriminate|]. rewrite <- EL in *.
@@ -376,17 +376,6 @@ Proof.
     exact (slash_objs_unchanged KSet (height s) (online_recs s) (due_of s KSet) a (mkL (recs s) (last_slash_height s) false) H1).
 Qed.
 
-Lemma create_set_frame : forall s pd,
-  let s' := create_set s pd in
-  recs s' = recs s /\ keys s' = keys s /\ proposal s' = proposal s /\ deleg s' = deleg s /\
-  gov_und s' = gov_und s /\ prm s' = prm s /\ burned s' = burned s /\ bal_o s' = bal_o s /\
-  bal_d s' = bal_d s /\ ubds s' = ubds s /\ height s' = height s /\
-  by_bridger s' = by_bridger s /\ by_ext s' = by_ext s.
-Proof.
-  intros. subst s'. unfold create_set.
-  match goal with |- context[if ?c then _ else _] => destruct c end; unfold_power; repeat split; reflexivity.
-Qed.
-
 Lemma end_block_spec : forall s t1 t2 pd s', end_block s t1 t2 pd = Ok s' ->
   rel_recs slash_rel (recs s) (recs s') /\
   (forall a, due_hit a s = false -> recs s' a = recs s a) /\
@@ -396,10 +385,11 @@ Lemma end_block_spec : forall s t1 t2 pd s', end_block s t1 t2 pd = Ok s' ->
   ubds s' = filter (fun u => negb (u_time u <=? t1)) (ubds s) /\
   height s' = height s + 1 /\ by_bridger s' = by_bridger s /\ by_ext s' = by_ext s.
 Proof.
-  intros s t1 t2 pd s' H. apply end_block_inv in H. destruct H as (s2 & H2 & ->).
+  intros s t1 t2 pd s' H. apply end_block_inv in H. destruct H as (s2 & s3 & H2 & H3 & ->).
   apply slashing_spec in H2.
   destruct H2 as (A1 & A2 & A3 & A4 & A5 & A6 & A7 & A8 & A9 & A10 & A11 & A12 & A13 & A14).
-  destruct (create_set_frame s2 pd) as (B1 & B2 & B3 & B4 & B5 & B6 & B7 & B8 & B9 & B10 & B11 & B12 & B13).
+  destruct (same_registry_trans _ _ _ (create_set_same _ _ H3) (prune_sets_same s3))
+    as (B1 & B12 & B13 & B2 & B3 & B4 & B5 & B6 & B7 & B8 & B9 & B10 & B11 & _).
   unfold next_block; proj.
   rewrite B1, B2, B3, B4, B5, B6, B7, B8, B9, B10, B11, B12, B13.
   rewrite A3, A4, A5, A6, A7, A8, A9, A10, A11, A12, A13, A14.
@@ -415,11 +405,13 @@ Qed.
 
 Lemma end_block_vals : forall s t1 t2 pd s', end_block s t1 t2 pd = Ok s' -> vals s' = vals s.
 Proof.
-  intros s t1 t2 pd s' H. apply end_block_inv in H. destruct H as (s2 & H2 & ->).
+  intros s t1 t2 pd s' H. apply end_block_inv in H. destruct H as (s2 & s3 & H2 & H3 & ->).
+  destruct (same_registry_trans _ _ _ (create_set_same _ _ H3) (prune_sets_same s3)) as (_ & _ & _ & _ & _ & _ & _ & _ & _ & _ & _ & _ & _ & V).
+  unfold next_block; proj. rewrite V. clear H3 V.
   unfold slashing in H2.
   match type of H2 with (if ?c then _ else _) = _ => destruct c; [discriminate|] end.
-  inversion H2; subst; clear H2. unfold next_block, create_set.
-  repeat match goal with |- context[if ?c then _ else _] => destruct c end; unfold_power; reflexivity.
+  inversion H2; subst; clear H2.
+  match goal with |- context[if ?c then _ else _] => destruct c end; unfold_power; reflexivity.
 Qed.
 
 Theorem step_core : forall s o s', idx_inv s -> core_inv s -> step s o = Ok s' -> core_inv s'.
@@ -445,6 +437,7 @@ Proof.
   - destruct R as (K & SL). destruct (export_import_registry _ _ I H) as (HK & HR & _). split.
     + intros a r Hr. apply HR in Hr. destruct Hr as (Hr & <-). rewrite HK. apply in_map. exact Hr.
     + intros a r Hr. apply (SL a r). eapply export_import_recs_sub; eauto.
+  - unfold observe_set in H. guards H. inversion H; subst. eapply core_inv_frame; eauto.
   - eapply end_block_core; eauto.
 Qed.
 
